@@ -3,6 +3,7 @@ import asyncio
 import contextvars
 import itertools
 import json
+import uuid
 
 from mc import vloop
 from mc.runner import Result
@@ -301,6 +302,7 @@ def h8(params, zero):
     bodies = []
     for i in range(n):
         cer = ContentEvaluationResult(
+            id=uuid.UUID("d106f335-f663-4d14-9636-4f43a883ad26"),  # ids are not unique: every evaluation's result carries the same one
             hints={"501": f"Hinweis von {i}"},
             format_constraints={"901": _I.EvaluatedFormatConstraint(format_constraint_fulfilled=i % 2 == 0,
                                                                     error_message=None if i % 2 == 0 else f"msg {i}")},
